@@ -5,10 +5,11 @@ from vmc.gen import pngs
 from vmc.oracles import shaper
 
 DIMS = {
-    "height": [128, 16, 32, 64, 127, 136, 255, 256],
+    "height": [128, 16, 32, 64, 127, 130, 136, 255, 256],
     "aspect": [[1, 1], [85, 128], [1, 2], [2, 1], [3, 1]],
     "width": ["em", 0, "2em", 100, 1275],
-    "metrics": [[1024, 950, -250], [1000, 800, -200], [2048, 1900, -500], [100, 100, 0], [1000, 1000, 0], [16384, 15000, -1000]],
+    "metrics": [[1024, 950, -250], [1000, 800, -200], [2048, 1900, -500], [100, 100, 0], [1000, 1000, 0], [16384, 15000, -1000],
+                [1000, 3000, -1000]],  # an em four times the upem: ppem is small, line height and bitmap height round apart
     "fmt": ["cbdt", "sbix"],
     "order": ["consecutive", "one_gap", "two_gaps", "coloured_notdef"],
     "nglyphs": [2, 1, 3],
